@@ -188,19 +188,21 @@ class _MetaPyTree(type):
                     if structure != named_structure:
                         return False
 
-        try:
-            for leaf_index, leaf in enumerate(leaves):
-                if cls.structure is not None:
-                    set_treepath_memo(leaf_index, cls.structure)
+        for leaf_index, leaf in enumerate(leaves):
+            if cls.structure is None:
+                # An unstructured `PyTree[...]` nested inside a structured one leaves
+                # the outer PyTree's leaf position alone.
                 if not is_check_leaftype(leaf):
                     return False
-                if cls.structure is not None:
+            else:
+                set_treepath_memo(leaf_index, cls.structure)
+                try:
+                    if not is_check_leaftype(leaf):
+                        return False
+                finally:
+                    # Exactly what we set, so that an enclosing structured PyTree
+                    # gets its own leaf position back.
                     clear_treepath_memo()
-        finally:
-            # Only clear what we set: an unstructured `PyTree[...]` nested inside a
-            # structured one must not wipe the outer PyTree's leaf position.
-            if cls.structure is not None:
-                clear_treepath_memo()
         return True
 
     # Can't return a generic (e.g. _FakePyTree[item]) because generic aliases don't do
